@@ -11,7 +11,7 @@ HOOK_COMMITS = []
 
 PROPS = {
     "C01": {
-        "units": ["h1_chunked"],
+        "units": ["h1_chunked", "h1_codec"],
         "kani": [],
         "technique": "Verus contracts (requires/ensures/loop invariants) on the extracted real chunked and payload decoders against an RFC 7230 byte automaton; segmentation independence as a lemma over those contracts",
         "level_text": "deductive proof, for all inputs and all iterations, that every chunked-decoder step is the RFC 7230 automaton's, that PayloadDecoder::decode emits exactly the framed bytes, and that the result is independent of read segmentation (lemma over the contracts)",
@@ -33,7 +33,7 @@ PROPS["C07"] = {
 }
 
 PROPS["C02"] = {
-    "units": ["h1_transfer_encoding"],
+    "units": ["h1_transfer_encoding", "h1_codec"],
     "kani": [],
     "technique": "Verus contracts on the extracted real TransferEncoding encoder against an RFC 7230 chunk-framing oracle (exact bytes appended, length enforcement, terminator exactly once, short body is an error)",
     "level_text": "deductive proof, for all chunk contents/lengths and encoder states, that TransferEncoding::encode/encode_eof append exactly the oracle's bytes (chunked: hex CRLF data CRLF, terminator once; sized: cut to the declared length; eof: pass-through) and that a short sized body yields UnexpectedEof",
@@ -81,6 +81,16 @@ PROPS["C12"] = {
     "level_note": "assumes a finite body stream (prophesied remainder) that obeys the Stream contract, BytesMut/Bytes shims, allocations <= isize::MAX; the decompressor wrapped around the payload is a dependency (the limit applies to its output because the field `stream` has type Decompress<Payload> - checked structurally by the extracted struct)",
     "not_decided": ["JsonBody / UrlEncoded / to_bytes_limited / multipart form field limits: units under construction", "content decoding itself (flate2/brotli/zstd)"],
     "assumptions": ["HttpMessageBody::poll precondition: the buffer starts within the limit (established by new(): empty buffer)"],
+}
+
+PROPS["C16"] = {
+    "units": ["files_chunked"],
+    "kani": [],
+    "technique": "Verus contract with a representation invariant on the extracted real ChunkedReadFile::poll_next (counter <= size, reads issued at the current offset for min(remaining, 64 KiB) bytes)",
+    "level_text": "deductive proof, for all sizes/offsets/read results and suspension points, that the ranged file stream never reads or emits past the requested length (counter <= size is an invariant), asks for exactly min(remaining, 65536) bytes at the current offset, advances offset and counter by exactly the bytes returned, and ends exactly when counter == size; no arithmetic overflow",
+    "level_note": "assumes the read callback returns between 1 and max_bytes bytes on success (chunked_read_file_callback_sync: file.take(max_bytes), error on 0 bytes) and the Future/Context shims; pin projection erased (R3/R4)",
+    "not_decided": ["path containment (PathBufWrap::parse_path): bounded Kani harness under construction", "Range header parsing (http_range dependency) and the Content-Range arithmetic inside NamedFile::into_response", "conditional headers (If-Match/If-None-Match/If-Modified-Since)", "joining the parsed relative path onto the root on a filesystem with symlinks"],
+    "assumptions": ["poll_next precondition: offset + (size - counter) fits u64 (the range lies inside the file)"],
 }
 
 _PENDING = "not claimed yet: contracts for this property are still under construction in this session"
